@@ -342,8 +342,10 @@ def c05(tier):
     # (e) the verdict under a stop request: whatever was scanned, missing references must not yield exit 0
     batch2 = rl.Batch()
     for structured in (False, True):
-        sc = rl.Scenario("one-missing-of-three", {"f1.rs": [S(11, ref=1)], "f2.rs": [S(21, ref=2)], "f3.rs": [S(31)]}, structured=structured)
-        rl.sweep(binary, sc, "check", ["INT", "TERM"], batch2, v)
+        for miss in (1, 2, 3):      # whichever order the directory yields, the incomplete file is not always first
+            tree = {"f%d.rs" % i: [S(10 * i + 1, ref=(None if i == miss else i))] for i in (1, 2, 3)}
+            sc = rl.Scenario("only-f%d-missing" % miss, tree, structured=structured)
+            rl.sweep(binary, sc, "check", ["INT", "TERM"], batch2, v)
         sc = rl.Scenario("two-missing-of-three", {"f1.rs": [S(11)], "f2.rs": [S(21, ref=2)], "f3.rs": [S(31)]}, structured=structured)
         rl.sweep(binary, sc, "check", ["TERM"], batch2, v)
     batch2.judge(v, {"C05"})
@@ -598,6 +600,8 @@ def c18(tier):
                 sc.name += "-lock%s" % lock
                 scens.append(sc)
     scens.append(rl.Scenario("all-referenced", {"f1.rs": [S(11, ref=1)], "f2.rs": [S(21, ref=2)]}))
+    for miss in (1, 2, 3):          # whichever order the directory yields, the incomplete file is not always first
+        scens.append(rl.Scenario("only-f%d-missing" % miss, {"f%d.rs" % i: [S(10 * i + 1, ref=(None if i == miss else i))] for i in (1, 2, 3)}, lock=9))
     if tier == "thorough":
         scens.append(rl.Scenario("five-files", {"f%d.rs" % i: [S(10 * i + 1), S(10 * i + 2, ref=i)] for i in range(1, 6)}, lock=50))
         scens.append(rl.sized_tree("sized-100k", 100000, lock=50))
